@@ -17,6 +17,7 @@ import (
 	"github.com/fatedier/frp/pkg/config/types"
 	v1 "github.com/fatedier/frp/pkg/config/v1"
 	"github.com/fatedier/frp/pkg/msg"
+	plugin "github.com/fatedier/frp/pkg/plugin/client"
 	"github.com/fatedier/frp/pkg/transport"
 	"github.com/fatedier/frp/pkg/util/limit"
 	netpkg "github.com/fatedier/frp/pkg/util/net"
@@ -494,6 +495,41 @@ func verif_HandleTCPWorkConnection(pxy *BaseProxy, workConn net.Conn, m *msg.Sta
 	} else if !plugged {
 		verif.Ensures(verif.CalledWith("Conn).Close", 0, workConn), "work_connection_closed_when_not_joined")
 	}
+	// a plugin is handed the top of the same stack (so what it serves crosses the
+	// tunnel through every declared layer), with the raw work connection as the
+	// underlying one
+	const evPlug = "plugin/client.Plugin).Handle"
+	if verif.Called(evPlug) {
+		verif.Ensures(plugged && verif.Called(evEnc) == enc && verif.Called(evComp) == comp, "plugin_gets_the_declared_layers")
+		var top any = workConn
+		if limited {
+			top = verif.Ret[any]("golib/io.WrapReadWriteCloser", 0)
+		}
+		if enc {
+			verif.Ensures(verif.Same(verif.NthArg[any](evEnc, 0, 0), top) && verif.CalledWith(evEnc, 1, encKey), "plugin_stream_encrypted_directly_on_the_work_connection")
+			top = verif.Ret[any](evEnc, 0)
+		}
+		if comp {
+			verif.Ensures(verif.Same(verif.NthArg[any](evComp, 0, 0), top), "plugin_stream_compressed_directly_above")
+			top = verif.Ret[any](evComp, 0)
+		}
+		ci := verif.NthArg[*plugin.ConnectionInfo](evPlug, 0, 2)
+		verif.Ensures(verif.Same(any(ci.UnderlyingConn), any(workConn)), "plugin_knows_the_raw_work_connection")
+		verif.Ensures(verif.Same(any(ci.Conn), top), "plugin_is_handed_the_top_of_the_stack")
+	}
+}
+
+// A client plugin is code behind an interface: unknown code here. Assumed
+// (listed): it does not touch the proxy's own configuration.
+//
+//verif:getter (~/pkg/plugin/client.Plugin).Name
+
+//verif:contract (~/pkg/plugin/client.Plugin).Handle
+//verif:trusted
+//verif:modifies *
+//verif:preserves H.client.proxy.BaseProxy. H.pkg.config.v1. H.pkg.msg. H.pkg.plugin.client.ConnectionInfo.
+func verif_client_Plugin_Handle(p plugin.Plugin, ctx context.Context, ci *plugin.ConnectionInfo) {
+	p.Handle(ctx, ci)
 }
 
 // ---------------------------------------------------------------- C03: the client UDP proxy's work-connection goroutines
